@@ -1615,4 +1615,66 @@ theorem reproducible_under_seed (o : Ops α) (toF : Nat → α) (fix : Bool) (P 
   simp only [Option.map_some, sampleStep]
   split <;> rfl
 
+/-! ### round 7: NewSampler's clamping (the glue between the request and the sampler) -/
+
+/-- what `NewSampler`'s clamping needs from the carrier: `<=` contains `<`, and `0 < 1` -/
+structure ClampLawsOn (o : Ops α) : Prop where
+  le_of_lt : ∀ a b, o.lt a b = true → o.le a b = true
+  zero_lt_one : o.lt o.zero o.one = true
+  oneGood : o.isNaN o.one = false
+
+/-- **NewSampler's clamping** (the glue between a request's options and the sampler): for non-NaN
+    requested values the stored `top_p` and `min_p` lie in `[0, 1]` and the stored temperature is not
+    negative — whatever was requested (negative, above 1, huge).  These are the ranges the arithmetic
+    run contracts `max·minP ≤ max` and the `p == 1` shortcut of `topP` rely on. -/
+theorem newParams_in_range {o : Ops α} (h : OrdLawsOn o) (hc : ClampLawsOn o) (temp : α) (k : Int) (p mp : α)
+    (hp : o.isNaN p = false) (hmp : o.isNaN mp = false) :
+    let P := newParams o temp k p mp
+    o.lt P.temp o.zero = false ∧ P.topK = k ∧
+    o.lt P.topP o.zero = false ∧ o.lt o.one P.topP = false ∧ o.isNaN P.topP = false ∧
+    o.lt P.minP o.zero = false ∧ o.lt o.one P.minP = false ∧ o.isNaN P.minP = false := by
+  have h10 : o.lt o.one o.zero = false := by
+    cases hv : o.lt o.one o.zero with
+    | false => rfl
+    | true =>
+      have := h.trans _ _ _ h.zero hc.oneGood h.zero hc.zero_lt_one hv
+      rw [h.irrefl _ h.zero] at this; cases this
+  have clamp : ∀ x, o.isNaN x = false →
+      let y := if o.lt x o.zero then o.zero else if o.le o.one x then o.one else x
+      o.lt y o.zero = false ∧ o.lt o.one y = false ∧ o.isNaN y = false := by
+    intro x hx
+    simp only
+    cases h1 : o.lt x o.zero with
+    | true => simp only [if_true]; exact ⟨h.irrefl _ h.zero, h10, h.zero⟩
+    | false =>
+      simp only [Bool.false_eq_true, if_false]
+      cases h2 : o.le o.one x with
+      | true =>
+        simp only [if_true]
+        refine ⟨h10, h.irrefl _ hc.oneGood, hc.oneGood⟩
+      | false =>
+        simp only [Bool.false_eq_true, if_false]
+        refine ⟨h1, ?_, hx⟩
+        cases h3 : o.lt o.one x with
+        | false => rfl
+        | true => rw [hc.le_of_lt _ _ h3] at h2; cases h2
+  simp only [newParams]
+  refine ⟨?_, trivial, (clamp p hp).1, (clamp p hp).2.1, (clamp p hp).2.2, (clamp mp hmp).1, (clamp mp hmp).2.1, (clamp mp hmp).2.2⟩
+  cases h1 : o.lt temp o.zero with
+  | true => simp only [if_true]; exact h.irrefl _ h.zero
+  | false => simp only [Bool.false_eq_true, if_false]; exact h1
+
+theorem xClampLawsOn : ClampLawsOn X.ops where
+  le_of_lt := by
+    intro a b hab
+    have : X.lt a b = true := hab
+    simp [X.ops, this]
+  zero_lt_one := by decide
+  oneGood := by decide
+
+/-- instantiation on the carrier with NaN: requested top-p 7 and min-p −3 are stored as 1 and 0 -/
+example : (newParams X.ops (.fin (-2)) 40 (.fin 7) (.fin (-3))).topP = .fin 1 ∧
+    (newParams X.ops (.fin (-2)) 40 (.fin 7) (.fin (-3))).minP = .fin 0 ∧
+    (newParams X.ops (.fin (-2)) 40 (.fin 7) (.fin (-3))).temp = .fin 0 := by decide
+
 end OllamaVerif.C18
